@@ -332,9 +332,13 @@ class StreamResponse(
             return
         assert self._payload_writer is not None
         self._headers[hdrs.CONTENT_ENCODING] = coding.value
-        self._payload_writer.enable_compression(
-            coding.value, self._compression_strategy
-        )
+        # A response that must not have a body (HEAD, 1xx, 204, 304) has
+        # nothing to compress, and finishing an empty deflate/gzip stream
+        # would put its bytes on the wire after the head.
+        if not self._must_be_empty_body:
+            self._payload_writer.enable_compression(
+                coding.value, self._compression_strategy
+            )
         # Compressed payload may have different content length,
         # remove the header
         self._headers.popall(hdrs.CONTENT_LENGTH, None)
